@@ -787,6 +787,31 @@ func r19Capture(c *an.Ctx) {
 		}
 		report(c, rule, f.Name, f, probs, "byte count = what the underlying writer reports; implicit 200 recorded on the first Write")
 	}
+	// no other method of the capture overwrites a status that was recorded: it may only record the implicit 200
+	// while none is recorded yet
+	for _, f := range c.AllFuncs("http/middleware") {
+		if !strings.HasPrefix(f.Name, "http/middleware.ResponseCapture.") || strings.HasSuffix(f.Name, ".WriteHeader") || strings.HasSuffix(f.Name, ".Write") {
+			continue
+		}
+		fn := c.SSAFunc(f)
+		if fn == nil {
+			continue
+		}
+		t := an.BuildPathTable(fn, an.PathOpts{})
+		c.Stats["paths_enumerated"] += len(t.Paths)
+		var probs []string
+		for i := range t.Paths {
+			p := &t.Paths[i]
+			sc, stored := lastStore(p, regexp.MustCompile(`^p0\.StatusCode$`))
+			if !stored {
+				continue
+			}
+			if zero, zk := pathEnv(p)["(p0.StatusCode == 0)"]; !zk || !zero || sc != "200" {
+				probs = append(probs, "the recorded status is overwritten with "+sc+" although one may already be recorded")
+			}
+		}
+		report(c, rule, f.Name, f, probs, "does not overwrite a recorded status")
+	}
 }
 
 func r19Options(c *an.Ctx) {
